@@ -5,6 +5,7 @@ import optree
 from hypothesis import strategies as st
 
 from vlib import compare, gen, model, runner
+from vlib import universe as U
 from vlib.props.c07 import PREFIX_PREDICATES
 
 LEAF = st.integers(0, 99).map(lambda n: ['L', n])
@@ -152,6 +153,16 @@ class C09(runner.Prop):
                     ctx.fail('common_suffix/accessor_paths', f'{[x.path for x in accs]!r}')
                 if gen.contains_tag(case['trees'][0], ('cn', 'cs', 'cm', 'cp', 'dc', 'partial')):
                     ctx.label('custom_entries_in_operand')
+                # S keeps the receiver's own node types and key order (and the argument's below the receiver's
+                # leaves): an order-aware comparison of what S rebuilds with what the model's lub rebuilds
+                marks = [U.Leaf(i) for i in range(S.num_leaves)]
+                d = model.same_tree(S.unflatten(marks), model.rebuild(L, iter(marks)))
+                if d:
+                    ctx.fail('common_suffix/rebuilds_receiver_order', f'{d}; A={A} B={B} S={S}')
+                amarks = [U.Leaf(i) for i in range(A.num_leaves)]   # a leaf of A over a None node of B: S may have fewer leaves than A
+                d = model.same_tree(A.broadcast_to_common_suffix(A).unflatten(amarks), A.unflatten(amarks))
+                if d:
+                    ctx.fail('common_suffix/idempotent_order', f'{d}; A={A}')
                 # least: both are prefixes of S
                 if not (A <= S and B <= S):
                     ctx.fail('common_suffix/upper_bound', f'A={A} B={B} S={S}')
